@@ -14,10 +14,10 @@ import (
 
 // Program is the immutable, shared result of loading /repo with the harness overlay.
 type Program struct {
-	Prog    *ssa.Program
-	ModPath string
-	Pkgs    map[string]*ssa.Package // by import path
-	Repo    []*ssa.Package          // packages of the module, dependency order
+	Prog       *ssa.Program
+	ModPath    string
+	Pkgs       map[string]*ssa.Package // by import path
+	Repo       []*ssa.Package          // packages of the module, dependency order
 	LoadErrors []string
 	funcCache  map[string]*ssa.Function
 }
